@@ -303,6 +303,7 @@ func init() {
 		e.c16ArbFacts()
 		e.c16ExistingLookupFacts()
 		e.c16CycleFacts()
+		e.c16GlueFacts()
 	}
 }
 
@@ -608,4 +609,229 @@ func (e *ext) c16ArbFacts() {
 	fmt.Fprintf(&e.out, "/-- initFilters: members of the retryable chain in source order (5 globally, 3 per node, 4 per namespace, 12 per workload) with the gates whose skipping drops them -/\ndef arbRetryableChain : List (Nat × List Nat) := [%s]\n", strings.Join(chain, ", "))
 	fmt.Fprintf(&e.out, "/-- retryablePodFilter = HaveEvictAnnotation(pod) || retryablePodFilters(pod) -/\ndef arbAnnBypassRetryable : Bool := %v\n", annRetry)
 	fmt.Fprintf(&e.out, "/-- nonRetryablePodFilter = HaveEvictAnnotation(pod) || podFilter(pod) -/\ndef arbAnnBypassNonRetryable : Bool := %v\n", annNonRetry)
+}
+
+// ---- glue facts (third extension): the event routing of arbitrationHandler (handler.go), and the way the three eviction
+// caps travel from the v1alpha2 configuration to NewEvictionLimiter (defaults.go, zz_generated.conversion.go, server.go).
+
+var c16CapFields = map[string]int{"MaxNoOfPodsToEvictPerNode": 1, "MaxNoOfPodsToEvictPerNamespace": 2, "MaxNoOfPodsToEvictTotal": 3}
+
+// c16CallsMethod: does the node contain a call `<x>.<name>(…)`; unconditional = it is a top-level statement of body
+func c16CallsMethod(n ast.Node, name string) bool {
+	found := false
+	ast.Inspect(n, func(m ast.Node) bool {
+		if c, ok := m.(*ast.CallExpr); ok {
+			if s, ok := c.Fun.(*ast.SelectorExpr); ok && s.Sel.Name == name {
+				found = true
+			}
+		}
+		return true
+	})
+	return found
+}
+
+func c16TopLevelCall(body *ast.BlockStmt, name string) bool {
+	for _, st := range body.List {
+		if es, ok := st.(*ast.ExprStmt); ok && c16CallsMethod(es, name) {
+			return true
+		}
+	}
+	return false
+}
+
+// c16EqLeaves flattens `a == K1 || a == K2 …` into the names K (selector or ident on the right-hand side); ok=false for any
+// other operator / shape.  lhs collects the left-hand sides.
+func c16EqLeaves(x ast.Expr) (names []string, lhs []string, ok bool) {
+	switch v := x.(type) {
+	case *ast.ParenExpr:
+		return c16EqLeaves(v.X)
+	case *ast.BinaryExpr:
+		switch v.Op {
+		case token.LOR:
+			n1, l1, ok1 := c16EqLeaves(v.X)
+			n2, l2, ok2 := c16EqLeaves(v.Y)
+			return append(n1, n2...), append(l1, l2...), ok1 && ok2
+		case token.EQL:
+			name := ""
+			switch r := v.Y.(type) {
+			case *ast.SelectorExpr:
+				name = r.Sel.Name
+			case *ast.Ident:
+				name = r.Name
+			case *ast.BasicLit:
+				name = r.Value
+			}
+			return []string{name}, []string{c16ExprString(v.X)}, name != ""
+		}
+	}
+	return nil, nil, false
+}
+
+func (e *ext) c16GlueFacts() {
+	arb := "pkg/descheduler/controllers/migration/arbitrator"
+	phaseCode := map[string]int{`""`: 0, "PodMigrationJobPending": 1, "PodMigrationJobRunning": 2, "PodMigrationJobSucceeded": 3,
+		"PodMigrationJobFailed": 4, "PodMigrationJobAborted": 5}
+	// 1. arbitrationHandler.Update: the statement(s) calling DeletePodMigrationJob must be ONE `if <phase == K || …> { … }` without
+	// else; the K are the phases that drop the passed mark
+	var phases []string
+	shape := false
+	if fd := e.funcDecl(arb, "arbitrationHandler", "Update"); fd != nil && fd.Body != nil {
+		nIf, nCalls := 0, 0
+		// local names for the phase: `phase := job.Status.Phase`
+		phaseVar := map[string]bool{}
+		ast.Inspect(fd.Body, func(n ast.Node) bool {
+			if as, ok := n.(*ast.AssignStmt); ok && as.Tok == token.DEFINE && len(as.Lhs) == 1 && len(as.Rhs) == 1 {
+				if id, ok := as.Lhs[0].(*ast.Ident); ok && strings.HasSuffix(c16ExprString(as.Rhs[0]), "Status.Phase") {
+					phaseVar[id.Name] = true
+				}
+			}
+			return true
+		})
+		ast.Inspect(fd.Body, func(n ast.Node) bool {
+			if c, ok := n.(*ast.CallExpr); ok {
+				if s, ok := c.Fun.(*ast.SelectorExpr); ok && s.Sel.Name == "DeletePodMigrationJob" {
+					nCalls++
+				}
+			}
+			is, ok := n.(*ast.IfStmt)
+			if !ok || !c16TopLevelCall(is.Body, "DeletePodMigrationJob") {
+				return true
+			}
+			nIf++
+			names, lhs, okc := c16EqLeaves(is.Cond)
+			good := okc && is.Else == nil && is.Init == nil
+			for _, l := range lhs {
+				if !strings.HasSuffix(l, "Status.Phase") && !phaseVar[l] {
+					good = false
+				}
+			}
+			for _, nm := range names {
+				c, known := phaseCode[nm]
+				if !known {
+					good = false
+				}
+				phases = append(phases, fmt.Sprint(c))
+			}
+			shape = good
+			return true
+		})
+		if nIf != 1 || nCalls != 1 {
+			shape = false
+		}
+	} else {
+		e.fail("arbitrationHandler.Update not found")
+	}
+	fmt.Fprintf(&e.out, "/-- arbitrationHandler.Update calls DeletePodMigrationJob in exactly one place, inside `if job.Status.Phase == K1 || … { }` (no else, no other operator) -/\ndef handlerDropShape : Bool := %v\n", shape)
+	fmt.Fprintf(&e.out, "/-- … for these phases K (0 \"\", 1 Pending, 2 Running, 3 Succeeded, 4 Failed, 5 Aborted), in source order -/\ndef handlerDropPhases : List Nat := [%s]\n", strings.Join(phases, ", "))
+	create, del := false, false
+	if fd := e.funcDecl(arb, "arbitrationHandler", "Create"); fd != nil && fd.Body != nil {
+		create = c16TopLevelCall(fd.Body, "AddPodMigrationJob") && !c16CallsMethod(fd.Body, "DeletePodMigrationJob")
+	}
+	if fd := e.funcDecl(arb, "arbitrationHandler", "Delete"); fd != nil && fd.Body != nil {
+		del = c16TopLevelCall(fd.Body, "DeletePodMigrationJob")
+	}
+	fmt.Fprintf(&e.out, "/-- arbitrationHandler.Create calls AddPodMigrationJob unconditionally (after the nil-object guard) and never DeletePodMigrationJob -/\ndef handlerCreateAdds : Bool := %v\n", create)
+	fmt.Fprintf(&e.out, "/-- arbitrationHandler.Delete calls DeletePodMigrationJob unconditionally (after the nil-object guard) -/\ndef handlerDeleteDrops : Bool := %v\n", del)
+	// arbitratorImpl.DeletePodMigrationJob: one statement, the call of removeJobPassedArbitration (the waiting collection is not touched)
+	onlyMark := false
+	if fd := e.funcDecl(arb, "arbitratorImpl", "DeletePodMigrationJob"); fd != nil && fd.Body != nil {
+		onlyMark = len(fd.Body.List) == 1 && c16TopLevelCall(fd.Body, "removeJobPassedArbitration")
+	}
+	fmt.Fprintf(&e.out, "/-- arbitratorImpl.DeletePodMigrationJob = removeJobPassedArbitration(job.UID) and nothing else -/\ndef arbDeleteOnlyDropsMark : Bool := %v\n", onlyMark)
+
+	// 2. the caps in package v1alpha2: every selector expression naming one of the three fields, outside the generated deep-copy
+	// and conversion files (struct field declarations are not selector expressions).  Defaulting must not touch them.
+	v2 := "pkg/descheduler/apis/config/v1alpha2"
+	mentions := 0
+	for name, f := range e.dir(v2) {
+		if name == "zz_generated.deepcopy.go" || name == "zz_generated.conversion.go" {
+			continue
+		}
+		ast.Inspect(f, func(n ast.Node) bool {
+			if s, ok := n.(*ast.SelectorExpr); ok {
+				if _, is := c16CapFields[s.Sel.Name]; is {
+					mentions++
+				}
+			}
+			return true
+		})
+	}
+	fmt.Fprintf(&e.out, "/-- package v1alpha2 outside zz_generated.{deepcopy,conversion}.go: expressions `x.MaxNoOfPodsToEvict…` (defaulting, decoding hooks) -/\ndef v1alpha2CapMentions : Nat := %d\n", mentions)
+	// 3. conversion v1alpha2 -> internal: out.X = (*uint)(unsafe.Pointer(in.X)) for each cap, X on both sides
+	var conv []string
+	if fd := e.funcDecl(v2, "", "autoConvert_v1alpha2_DeschedulerConfiguration_To_config_DeschedulerConfiguration"); fd != nil && fd.Body != nil {
+		ast.Inspect(fd.Body, func(n ast.Node) bool {
+			as, ok := n.(*ast.AssignStmt)
+			if !ok || len(as.Lhs) != 1 || len(as.Rhs) != 1 {
+				return true
+			}
+			l, ok := as.Lhs[0].(*ast.SelectorExpr)
+			if !ok {
+				return true
+			}
+			lc, is := c16CapFields[l.Sel.Name]
+			if !is {
+				return true
+			}
+			// (*uint)(unsafe.Pointer(in.X)) or in.X
+			rc, pure := 0, false
+			x := as.Rhs[0]
+			if c1, ok := x.(*ast.CallExpr); ok && len(c1.Args) == 1 && c16ExprString(c1.Fun) == "*uint" {
+				if c2, ok := c1.Args[0].(*ast.CallExpr); ok && len(c2.Args) == 1 && c16ExprString(c2.Fun) == "unsafe.Pointer" {
+					x, pure = c2.Args[0], true
+				}
+			} else if _, ok := x.(*ast.SelectorExpr); ok {
+				pure = true
+			}
+			if s, ok := x.(*ast.SelectorExpr); ok && pure && c16ExprString(s.X) == "in" && c16ExprString(l.X) == "out" {
+				rc = c16CapFields[s.Sel.Name]
+			}
+			conv = append(conv, fmt.Sprintf("(%d, %d)", lc, rc))
+			return true
+		})
+	} else {
+		e.fail("autoConvert_v1alpha2_DeschedulerConfiguration_To_config_DeschedulerConfiguration not found")
+	}
+	fmt.Fprintf(&e.out, "/-- conversion to the internal type: (cap assigned, cap it is a plain pointer copy of; 0 = anything else), 1 node 2 namespace 3 total -/\ndef convCapAssigns : List (Nat × Nat) := [%s]\n", strings.Join(conv, ", "))
+	// 4. cmd/koord-descheduler/app: NewEvictionLimiter(<…>.ComponentConfig.X, …) in Setup, and no other mention of the fields
+	// anywhere in app / app/options / app/config
+	var args []string
+	appMentions := 0
+	for _, d := range []string{"cmd/koord-descheduler/app", "cmd/koord-descheduler/app/options", "cmd/koord-descheduler/app/config"} {
+		for _, f := range e.dir(d) {
+			ast.Inspect(f, func(n ast.Node) bool {
+				if s, ok := n.(*ast.SelectorExpr); ok {
+					if _, is := c16CapFields[s.Sel.Name]; is {
+						appMentions++
+					}
+				}
+				return true
+			})
+		}
+	}
+	nNew := 0
+	if fd := e.funcDecl("cmd/koord-descheduler/app", "", "Setup"); fd != nil && fd.Body != nil {
+		ast.Inspect(fd.Body, func(n ast.Node) bool {
+			c, ok := n.(*ast.CallExpr)
+			if !ok || c16Callee(c) != "NewEvictionLimiter" {
+				return true
+			}
+			nNew++
+			for _, a := range c.Args {
+				code := 0
+				if s, ok := a.(*ast.SelectorExpr); ok && strings.HasSuffix(c16ExprString(s.X), "ComponentConfig") {
+					code = c16CapFields[s.Sel.Name]
+				}
+				args = append(args, fmt.Sprint(code))
+			}
+			return true
+		})
+	} else {
+		e.fail("app.Setup not found")
+	}
+	if nNew != 1 {
+		e.fail("app.Setup: %d calls of NewEvictionLimiter", nNew)
+	}
+	fmt.Fprintf(&e.out, "/-- app.Setup: arguments of NewEvictionLimiter as fields of the completed ComponentConfig (1 node 2 namespace 3 total, 0 = anything else) -/\ndef setupLimiterArgs : List Nat := [%s]\n", strings.Join(args, ", "))
+	fmt.Fprintf(&e.out, "/-- cmd/koord-descheduler/app{,/options,/config}: expressions naming one of the three cap fields (the three arguments above and nothing else) -/\ndef appCapMentions : Nat := %d\n", appMentions)
 }
